@@ -7,6 +7,7 @@ package scen
 // representational differences and nothing else.
 
 import (
+	"testing/iotest"
 	"encoding/json"
 	"fmt"
 	"io"
@@ -227,10 +228,13 @@ func Render(fe FrontEnd, root *Node, input any) *Rendered {
 				return zjson.Decode(rd)
 			}
 		} else if fe == FEJSON {
-			r.MkData = func() any { return zjson.Decode(strings.NewReader(string(text))) }
+			// environment answer "short read": the document arrives one byte per Read
+			r.MkData = func() any { return zjson.Decode(iotest.OneByteReader(strings.NewReader(string(text)))) }
 		} else if fe == FEHTTPJSONStream {
 			r.MkData = func() any {
-				req := httptest.NewRequest(http.MethodPost, "/", io.NopCloser(strings.NewReader(string(text))))
+				// a chunked upload: the body arrives in two pieces, the first one a single byte
+				body := io.MultiReader(strings.NewReader(string(text[:1])), strings.NewReader(string(text[1:])))
+				req := httptest.NewRequest(http.MethodPost, "/", io.NopCloser(body))
 				req.Header.Set("Content-Type", "application/json; charset=utf-8")
 				return zhttp.Request(req)
 			}
@@ -266,6 +270,23 @@ func Render(fe FrontEnd, root *Node, input any) *Rendered {
 				for _, sk := range sibKeys {
 					name := strings.ToUpper(k) + "_" + sk
 					if _, taken := vals[name]; !taken && name != "" && !strings.ContainsAny(name, "=\x00") {
+						withStrays[name] = []string{"stray"}
+					}
+				}
+			}
+		}
+		if fe == FEEnv {
+			// variables whose names differ from an unset field's key only by letter case are other variables
+			declared := map[string]bool{}
+			for _, k := range append(append([]string{}, recKeys...), sibKeys...) {
+				declared[k] = true
+			}
+			for _, sk := range sibKeys {
+				if _, set := vals[sk]; set || strings.ContainsAny(sk, "=\x00") {
+					continue
+				}
+				for _, name := range []string{strings.ToUpper(sk), strings.ToLower(sk)} {
+					if _, taken := withStrays[name]; !taken && name != sk && !declared[name] {
 						withStrays[name] = []string{"stray"}
 					}
 				}
@@ -307,8 +328,8 @@ func Render(fe FrontEnd, root *Node, input any) *Rendered {
 			r.Src = &specSrc{flat: true, tag: tag, get: func(key string) any { return strings.TrimSpace(env[key]) }}
 			r.Desc = fmt.Sprintf("environment %v", env)
 			r.MkData = func() any {
-				for k, v := range env {
-					os.Setenv(k, v)
+				for _, k := range keys { // a fixed definition order (C09 enumerates the others)
+					os.Setenv(k, env[k])
 				}
 				return zenv.NewDataProvider()
 			}
